@@ -643,7 +643,11 @@ func (sc *SubCache[EntityT, ExcerptT, CacheT]) evictIfNeeded() {
 		return
 	}
 
-	for _, id := range sc.lru.GetOldestToNewest() {
+	ids := sc.lru.GetOldestToNewest()
+	// never evict the most recently used entity: it is the one being handed to the caller, which
+	// would get it locked for good (or, for a new entity, not find it anymore to write its excerpt)
+	// when every older entity has uncommitted changes.
+	for _, id := range ids[:len(ids)-1] {
 		b := sc.cached[id]
 		if b.NeedCommit() {
 			continue
